@@ -128,7 +128,7 @@ def body(ctx, p):
         Atoms = ctx.ms.Atoms
         m0 = ctx.real('m0', 11.5, 14.5)
         m1 = ctx.real('m1', 38.5, 40.5)
-        tol = ctx.real('tol', 1e-3, 0.5)
+        tol = ctx.real('tol', 0, 0.5)        # including an explicit 0: nothing is within tolerance, so no element may be invented
         tok = (lambda x: fm.exact_token(x)) if ctx.sym else (lambda x: repr(float(x)))
         com = {'none': ('', ''), 'elements': ('   # C', '   # K'), 'other-elements': ('   # Zr', '   # O'), 'ff-labels': ('   # C_R', '   # K_'),
                }[p['labels']]
